@@ -994,6 +994,16 @@ struct H {
                             return c;
                         });
     }
+    // coverage-guided mode: selector bytes, then entropy
+    static bool from_fuzz(const uint8_t *d, size_t n, Case &c) {
+        pbt::FuzzBytes f(d, n);
+        static const int w[] = {1, 2, 4, 1};
+        uint8_t          s   = f.sel();
+        c.width  = w[s & 3];
+        c.target = (s >> 2) % 5;
+        c.bytes  = f.rest();
+        return true;
+    }
     static std::string to_text(const Case &c) {
         pbt::KV     kv;
         std::string hex;
@@ -1100,4 +1110,4 @@ struct H {
 
 } // namespace
 
-int main(int argc, char **argv) { return pbt::run_main<H>(argc, argv); }
+PBT_MAIN(H)
